@@ -204,6 +204,9 @@ func mapField(
 			TargetID:   targetField.Name(),
 			TargetType: targetField.Type().String(),
 		})
+		if sourceID.ImplicitDeref {
+			return sourceID.ParentPointer.Deref(source.AsPointer()), source, nil, lift, false, nil
+		}
 		return sourceID, source, nil, lift, false, nil
 	}
 
